@@ -160,7 +160,7 @@ def tasks_C01(tier, seed, only_opt=False, costs=False):
     n_core = len(core)
     for i, e in enumerate(core + wide):
         hs = [list(x) for x in head_sigs(e["text"])]
-        cfgs = ["default", "all"]
+        cfgs = ["default", "all"] if (i < n_core or tier == "thorough") else ["default" if i % 2 else "all"]
         if tier == "thorough":
             if i < n_core:
                 cfgs += [[t] for t in TRAITS] + [sorted(rnd.sample(TRAITS, rnd.randint(2, 7))) for _ in range(3)]
@@ -178,7 +178,7 @@ def tasks_C01(tier, seed, only_opt=False, costs=False):
 
 def tasks_C04(tier, seed):
     tasks = []
-    entries = [e for e in corpus_T() if e["trait"] not in ("ast", "global", "dependency")] + corpus_G("C04") + corpus_D() + corpus_G_all(tier, 0, 2)
+    entries = [e for e in corpus_T() if e["trait"] not in ("ast", "global", "dependency")] + corpus_G("C04") + corpus_D() + corpus_G_all(tier, 0, 3)
     for e in entries:
         hs = [list(x) for x in head_sigs(e["text"])]
         tr = e.get("trait") or FAM_TRAIT.get(e.get("prop") or e["id"].split("-")[1])
